@@ -28,9 +28,11 @@ Definition has_gfp_field : bool := c_ngfp C >? 0.
 
 (* what the PDFs read at an evaluation with parameter value x: the global-fit-
    parameter dependent data field is recalculated for x at every evaluation *)
-Definition full_tv (vw : view (data W) (src W)) (sf : option (src W)) (cs : src W) (x : Z) : Tv :=
-  (vw, (sf, if has_gfp_field then Some (Fg W vw sf cs x) else None)).
-Definition plain_tv (vw : view (data W) (src W)) (sf : option (src W)) : Tv := (vw, (sf, None)).
+Definition has_gfp_field2 : bool := 2 <=? c_ngfp C.
+Definition full_tv (vw : view (data W) (src W)) (sf : option (src W)) (cs : src W) (ns x : Z) : Tv :=
+  (vw, (sf, (if has_gfp_field then Some (Fg W vw sf cs x) else None,
+             if has_gfp_field2 then Some (Fg2 W vw sf cs ns) else None))).
+Definition plain_tv (vw : view (data W) (src W)) (sf : option (src W)) : Tv := (vw, (sf, (None, None))).
 
 Definition sinit (s0 : src W) : sstate :=
   mksst None (if has_src_fields then Some s0 else None) s0 None None.
@@ -78,7 +80,7 @@ Definition sstep (s : sstate) (o : op W) : sstate * obs W :=
   | Evaluate _ ns x =>
       match ss_view s, ss_evd s with
       | Some vw, Some evd =>
-          let cur := full_tv vw (ss_srcf s) (ss_cur s) x in
+          let cur := full_tv vw (ss_srcf s) (ss_cur s) ns x in
           (mksst (ss_view s) (ss_srcf s) (ss_cur s) (ss_evd s)
                  (match pure_nsg cur evd ns x with Some g => Some g | None => ss_nsg s end),
            OEval W (pure_eval cur evd ns x))
@@ -221,3 +223,37 @@ Fixpoint msrun (s : msstate) (ops : list (mop W)) : list (mobs W MW) :=
   end.
 
 End MultiSpec.
+
+(* the same minimiser on objects without caches *)
+Section MaximizeSpec.
+Variable W : world.
+Variable C : cfg.
+Variable MaxOut : Type.
+Variable strat : qlog W -> option (Z * Z).
+Variable pick : qlog W -> MaxOut.
+
+Fixpoint smax_loop (fuel : nat) (s : sstate W) (h : qlog W) : sstate W * qlog W :=
+  match fuel with
+  | 0%nat => (s, h)
+  | S f =>
+    match strat h with
+    | None => (s, h)
+    | Some (ns, x) =>
+      let '(s1, o) := sstep W C s (Evaluate W ns x) in
+      smax_loop f s1 (h ++ [((ns, x), obs_eval W o)])
+    end
+  end.
+
+Definition smaximize (fuel : nat) (s : sstate W) : MaxOut := pick (snd (smax_loop fuel s [])).
+
+Definition xis_query (o : xop W) : bool :=
+  match o with XOp _ o' => is_query W o' | XMax _ _ => true end.
+
+Fixpoint xsrc_after (s0 : src W) (xs : list (xop W)) : src W :=
+  match xs with
+  | [] => s0
+  | XOp _ (ChangeSource _ s) :: r => xsrc_after s r
+  | _ :: r => xsrc_after s0 r
+  end.
+
+End MaximizeSpec.
